@@ -19,7 +19,7 @@ CFG = {
     "trusted": ["the harness counts invocations inside the real closures; versions (writes / changed recomputations) are kept by the harness"],
     "modelled": ["MemoInner::update_if_necessary (changed flag, Check resolution, skip-current-observer rule)", "EffectInner::{mark_dirty,mark_check,update_if_necessary}",
                  "Effect::new task loop", "channel.rs Sender/Receiver"],
-    "assumptions": ["Effect::new only (watch / RenderEffect / ImmediateEffect share EffectInner but are not separately driven yet)"],
+    "assumptions": ["Effect::new, new_sync, new_isomorphic, watch and RenderEffect::new are driven; ImmediateEffect and Selector are not"],
     "manifest": {
         "category": "proof",
         "text": "PROVED: C09_run_justified_full - for every well-formed program of signals, memos and effects (tracked AND untracked reads), every history (writes incl. equal values, reads, "
